@@ -242,6 +242,50 @@ def render(a, style="min", rng=None, spacing=False, case=False):
     return join(tokens(a, style, rng), rng, spacing, case)
 
 
+# ------------------------------------------------------------------ literal spelling
+# A numeral keeps its value (and its kind: integer / decimal) under leading zeros, trailing zeros of the
+# fraction, a dropped "0" before the point and an explicit "+" -- another rendering dimension next to
+# parentheses, blanks and letter case. Spellings that turn an integer into a decimal ("5.", "5.0") are only
+# used where a whole expression is one literal (props.c18.literal_cases): the kind matters to `round`.
+SPELL_MODES = ["leading-zero", "trailing-zero", "bare-point", "explicit-plus"]
+
+
+def respell(lit, mode, rng=None):
+    k = rng.randint(1, 3) if rng is not None else 1
+    if mode == "leading-zero":
+        return "0" * k + lit
+    if mode == "trailing-zero":
+        return lit + "0" * k if "." in lit else lit
+    if mode == "bare-point":
+        return lit[1:] if lit.startswith("0.") else lit
+    return lit
+
+
+def spell_ast(a, mode, rng=None, parent=None):
+    """AST whose literals are respelled. mode: one of SPELL_MODES (every literal, deterministic when rng is
+    None) or 'mixed' (each literal gets a random mode or none)."""
+    k = a[0]
+    if k == "c":
+        return a
+    if k == "n":
+        m = mode
+        if mode == "mixed":
+            m = rng.choice(SPELL_MODES + ["leading-zero", None, None])
+        if m is None:
+            return a
+        if m == "explicit-plus":
+            # stacked signs with + are not generated (ambiguous in the manual)
+            if parent is not None and parent[0] in ("neg", "pos"):
+                return a
+            return ("pos", a)
+        return ("n", respell(a[1], m, rng if mode == "mixed" else None))
+    if k in ("neg", "pos"):
+        return (k, spell_ast(a[1], mode, rng, a))
+    if k == "u":
+        return (k, a[1], spell_ast(a[2], mode, rng, a))
+    return (k, a[1], spell_ast(a[2], mode, rng, a), spell_ast(a[3], mode, rng, a))
+
+
 # ------------------------------------------------------------------ generation
 def gen_atom(rng):
     r = rng.random()
